@@ -300,15 +300,29 @@ Definition encodableb (c : cmd) : bool :=
   && (1 <=? Z.of_nat (length (c_shapes c))) && (Z.of_nat (length (c_shapes c)) <=? 255)
   && forallb shape_okb (c_shapes c).
 
-(** what the write path guarantees by Go typing and construction alone (no bound on the number of
-    columns or on name lengths): the domain of the property AS STATED *)
+(** utils/io/metadata.go TimeBucketInfo.CheckStorable (fix d005c52/e807cb3, called by catalog.AddTimeBucket):
+    a column name must fit its elementNameHeaderBytes-byte header slot and neither start nor end with NUL *)
+Definition storable_nameb (s : shape) : bool :=
+  (blen (s_name s) <=? elementNameHeaderBytes)
+  && match s_name s with
+     | [] => true
+     | b :: _ => negb (Byte.eqb b x00) && negb (Byte.eqb (last (s_name s) x01) x00)
+     end.
+
+(** what the write path guarantees: Go typing and the construction of a WriteCommand (key path of an
+    existing file, int32 VarRecLen, ...) and — since a write is only accepted for a bucket that
+    catalog.AddTimeBucket created — CheckStorable on the column names ("Epoch" + element names) and at most
+    maxNumElements elements.  There is still NO bound of 255 on the number of shapes: the domain of the
+    property AS STATED *)
 Definition acceptableb (c : cmd) : bool :=
   in_ityb I8 (c_rt c)
   && (blen (c_path c) <? 32768)
   && (blen (c_data c) <? 2147483648)
   && in_ityb I32 (c_vrl c)
   && in_ityb I64 (c_off c) && in_ityb I64 (c_idx c)
-  && (1 <=? Z.of_nat (length (c_shapes c))).
+  && (1 <=? Z.of_nat (length (c_shapes c)))
+  && (Z.of_nat (length (c_shapes c)) <=? maxNumElements + 1)
+  && forallb storable_nameb (c_shapes c).
 
 (** the two defect classes (executable mirrors live in harness/props/c28.go) *)
 Definition long_nameb (c : cmd) : bool := negb (forallb shape_okb (c_shapes c)).
